@@ -11,6 +11,9 @@ ID = "C14"
 LEVEL = "exploration"
 EXAMPLES = {"quick": 640, "thorough": 12000}
 DEADLINE_S = {"quick": 300, "thorough": 3000}
+# Hypothesis needs minutes to shrink a network recipe + case list (each attempt re-draws the grid); the quick tier
+# reports the smallest failing case found instead (hand-reduced witnesses are in replays/)
+NO_SHRINK = {"quick": True, "thorough": False}
 RULE = ("Hypothesis draws a meshed network recipe (netgen.grid with 1-4 extra branches per level, 1-3 voltage levels, "
         "second slack in half of the cases, out-of-service parts, open switches, a slack-less island), per-branch "
         "max_loading_percent (or max_loading_percent_nminus1) values incl. NaN, optional custom/descending index labels "
